@@ -82,12 +82,29 @@ def c19_valueerror_of_urllib(v):
     return "[" in u or "]" in u or any(ord(ch) > 127 for ch in u)
 
 
+_C19_PATH_FIELDS = {("FacebookGroup", "handle"), ("FacebookGroup", "id"), ("FacebookHandle", "handle"), ("FacebookPhoto", "album_id"), ("FacebookPhoto", "id"),
+                    ("FacebookPhoto", "parent_handle"), ("FacebookPhoto", "parent_id"), ("FacebookPhoto", "group_id"), ("FacebookPost", "group_handle"),
+                    ("FacebookPost", "group_id"), ("FacebookPost", "id"), ("FacebookPost", "parent_handle"), ("FacebookPost", "parent_id"),
+                    ("FacebookUser", "id"), ("FacebookUser", "handle"), ("FacebookVideo", "id"), ("FacebookVideo", "parent_id"), ("FacebookVideo", "parent_handle"),
+                    ("GoogleDriveFile", "id"), ("GoogleDriveFile", "type"), ("YoutubeChannel", "id"), ("YoutubeChannel", "name"), ("YoutubeUser", "name"),
+                    ("YoutubeShort", "id"), ("YoutubeVideo", "id"), ("TelegramChannel", "name"), ("TelegramGroup", "id"), ("TelegramMessage", "name"),
+                    ("TelegramMessage", "id"), ("TwitterUser", "screen_name"), ("TwitterTweet", "id"), ("TwitterTweet", "user_screen_name"), ("TwitterList", "id"),
+                    ("InstagramUser", "name"), ("InstagramPost", "id"), ("InstagramPost", "name"), ("InstagramReel", "id")}
+
+
 def c19_exotic_segment_in_record(v):
     """the record was read from a path with an empty segment ('//'), a dot segment, a blank or percent-escaped / reserved characters:
     the value does not survive being pasted into the canonical URL template (families F7 / F12 of bcheck/notes/c19.md)"""
     import re
     note = v.get("note") or ""
     if ":empty" in note or "dot-segment" in note:
+        # only for the record fields that ARE read from a path segment (or a facebook id parameter) on the recorded tree: a new empty field
+        # (e.g. a youtube playlist read from 'list=') is not this finding
+        cls, _, rest = note.partition(":")
+        for f in rest.split(","):
+            parts = f.split(":")
+            if len(parts) > 1 and parts[1] in ("empty", "dot-segment") and (cls, parts[0]) not in _C19_PATH_FIELDS:
+                return False
         return True
     u = _c19_url(v)
     rest = re.sub(r"^[a-zA-Z]*:?//", "", u)
